@@ -390,3 +390,18 @@ package graphql
 //@   requires rc != nil
 //@ trusted (GraphExecutor).DispatchError(ctx, list) (resp)
 //@ trusted (GraphExecutor).PresentRecoveredError(ctx, err) (e)
+
+// ---------------------------------------------------------------- C10: upload map paths
+//@ trusted strings.HasPrefix(s, prefix) (b)
+//@   nopanic
+//@   pure
+//@ trusted strings.Split(s, sep) (parts)
+//@   ensures len(parts) >= 1
+//@   nopanic
+//@   pure
+// Any client-supplied variables tree, key and path: never a panic (nil variables, wrong container kind,
+// index out of range or negative, ...), always either the upload stored or a client error.
+//@ func (*RawParams).AddUpload [C10]
+//@   requires p != nil
+//@   nopanic
+//@   replay addUpload.go.tmpl
